@@ -135,7 +135,9 @@ class ThetaForecaster(ExponentialSmoothing):
             self.deseasonalizer_ = Deseasonalizer(sp=self.sp, model="multiplicative")
             y = self.deseasonalizer_.fit_transform(y)
 
-        self.initialization_method = "known" if self.initial_level else "estimated"
+        self.initialization_method = (
+            "known" if self.initial_level is not None else "estimated"
+        )
         # fit exponential smoothing forecaster
         # find theta lines: Theta lines are just SES + drift
         super(ThetaForecaster, self).fit(y, fh=fh)
